@@ -28,7 +28,10 @@ FROZEN = {
     "C11": [T + x for x in ["scope_Snapshot", "_newSnapshot", "counter_snapshot", "gauge_snapshot", "timer_snapshot", "histogram_snapshotValues", "histogram_snapshotDurations",
                             "snapshot_Counters", "snapshot_Gauges", "snapshot_Timers", "snapshot_Histograms", "scopeRegistry_ForEachScope"]],
     "C12": ["body_m3_" + x for x in ["reporter_calculateSize", "reporter_calculateBucketSize", "reporter_process", "reporter_flush", "_NewReporter", "reporter_newMetric",
-                                     "reporter_AllocateHistogram", "reporter_allocateCounter", "reporter_valueBucketString", "reporter_durationBucketString", "_ndigits"]],
+                                     "reporter_AllocateHistogram", "reporter_allocateCounter", "reporter_valueBucketString", "reporter_durationBucketString", "_ndigits"]]
+           + ["body_thriftudp_" + x for x in ["TUDPTransport_Write", "TUDPTransport_WriteByte", "TUDPTransport_WriteString", "TUDPTransport_Flush",
+                                              "TMultiUDPTransport_Write", "TMultiUDPTransport_Flush"]]
+           + ["calcTransport_Write", "calcTransport_WriteByte", "calcTransport_WriteString", "calcTransport_GetCount", "calcTransport_ResetCount"],
     "C13": ["body_m3_" + x for x in ["reporter_reportCopyMetric", "reporter_process", "reporter_flush", "reporter_convertTags", "reporter_newMetric", "reporter_AllocateCounter",
                                      "reporter_AllocateGauge", "reporter_AllocateTimer", "reporter_AllocateHistogram", "reporter_allocateCounter", "cachedMetric_ReportCount",
                                      "cachedMetric_ReportGauge", "cachedMetric_ReportTimer", "cachedHistogram_ValueBucket", "cachedHistogram_DurationBucket",
